@@ -17,7 +17,9 @@ RULE = ("A source tree (float with unit, int, bool, str, float array, a nested n
         "source nodes, value injections {?p} / {src?p} into new typed hosts or as modifications of existing hosts, with "
         "the host unit stated or not, slices on arrays and strings, imports {?p.*}, {?p}, {?*} below groups, and at "
         "most one terminal probe (injection selecting none / several, import selecting nothing, modification refused "
-        "by an imported constraint). Oracle: a model environment replayed in text order (injected value = current "
+        "by an imported constraint, an option added to an imported copy: accepted there, still refused by the original); "
+        "a computed boolean source (src.cmp = comparison of src.cnt); imports of hosts that were themselves created by "
+        "(sliced) injections. Oracle: a model environment replayed in text order (injected value = current "
         "value of the source, slice applied; unit rule as stated; then conversion into the host's definition unit; "
         "imports copy value, type, unit and constraints). The base environment's data(TUPLE) and unit list must be "
         "identical before and after. Non-trivial: an injection after a modification of the source, or with a unit "
@@ -43,6 +45,7 @@ def source_tree(draw):
         "len": [draw(st.sampled_from([1.5, 34.0, 250.0, 0.5, 0.0])), draw(st.sampled_from(LEN))],
         "cnt": draw(st.integers(-5, 50)),
         "flag": draw(st.booleans()),
+        "cmp_op": draw(st.sampled_from(["<=", ">=", "<", "=="])),     # src.cmp bool = ("{?src.cnt} <op> 20"): a computed boolean
         "name": draw(st.sampled_from(WORDS)),
         "arr": [[draw(st.sampled_from([34.0, 23.34, 1.0, 0.25, 100.0])) for _ in range(3)], draw(st.sampled_from(LEN))],
         "deep": draw(st.integers(1, 3)),
@@ -50,13 +53,20 @@ def source_tree(draw):
     }
 
 
-KEYS = ["src.len", "src.cnt", "src.flag", "src.name", "src.arr", "src.sub.deep"]
-TYPE = {"src.len": "float", "src.cnt": "int", "src.flag": "bool", "src.name": "str", "src.arr": "float[3]", "src.sub.deep": "int"}
+KEYS = ["src.len", "src.cnt", "src.flag", "src.cmp", "src.name", "src.arr", "src.sub.deep"]
+TYPE = {"src.len": "float", "src.cnt": "int", "src.flag": "bool", "src.cmp": "bool", "src.name": "str", "src.arr": "float[3]",
+        "src.sub.deep": "int"}
+
+
+def cmp_value(t):
+    op = t.get("cmp_op", "<=")
+    return {"<=": t["cnt"] <= 20, ">=": t["cnt"] >= 20, "<": t["cnt"] < 20, "==": t["cnt"] == 20}[op]
 
 
 @st.composite
 def operation(draw, where):
-    kinds = ["inject_def"] * 5 + ["inject_mod"] * 2 + ["import_children", "import_children", "import_single", "import_all"]
+    kinds = ["inject_def"] * 5 + ["inject_mod"] * 2 + ["import_children", "import_children", "import_single", "import_all",
+                                                       "import_host", "import_host"]
     if where != "remote":
         kinds += ["mod_src"] * 6
     k = draw(st.sampled_from(kinds))
@@ -77,12 +87,14 @@ def operation(draw, where):
             sl = draw(st.sampled_from([None, None, "2:", ":3", "1:4", "0"]))
         return ["inject_def", key, unit, sl]
     if k == "inject_mod":
-        return ["inject_mod", draw(st.sampled_from(["src.len", "src.cnt", "src.flag", "src.name"])),
+        return ["inject_mod", draw(st.sampled_from(["src.len", "src.cnt", "src.flag", "src.cmp", "src.name"])),
                 draw(st.sampled_from([None] + LEN))]
     if k == "import_children":
         return ["import_children", draw(st.sampled_from(["src", "src.sub"]))]
     if k == "import_single":
         return ["import_single", draw(st.sampled_from(KEYS))]
+    if k == "import_host":
+        return ["import_host", draw(st.integers(0, 6))]     # the i-th host defined so far (modulo), created by an injection
     return ["import_all"]
 
 
@@ -91,7 +103,7 @@ def ref_case(draw):
     where = draw(st.sampled_from(["local", "local", "remote", "base"]))
     ops = draw(st.lists(operation(where), min_size=1, max_size=7))
     probe = draw(st.sampled_from([None] * 5 + ["inject_none", "inject_several", "import_none", "import_none_single",
-                                               "imported_constraint"]))
+                                               "imported_constraint", "option_added_to_copy", "option_leak"]))
     return {"where": where, "tree": draw(source_tree()), "ops": ops, "probe": probe}
 
 
@@ -116,6 +128,7 @@ def source_text(t):
          f"  len float = {lit(t['len'][0])} {t['len'][1]}",
          f"  cnt int = {t['cnt']}",
          f"  flag bool = {lit(t['flag'])}",
+         f"  cmp bool = (\"{{?src.cnt}} {t.get('cmp_op', '<=')} 20\")",
          f"  name str = {lit(t['name'])}",
          f"  arr float[3] = {lit(t['arr'][0])} {t['arr'][1]}",
          "  sub",
@@ -146,6 +159,7 @@ class Model:
         self.add("src.len", "float", t["len"][1], t["len"][0])
         self.add("src.cnt", "int", None, t["cnt"])
         self.add("src.flag", "bool", None, t["flag"])
+        self.add("src.cmp", "bool", None, cmp_value(t))
         self.add("src.name", "str", None, t["name"])
         self.add("src.arr", "float[3]", t["arr"][1], list(t["arr"][0]))
         self.add("src.sub.deep", "int", None, t["deep"], t["deep_con"])
@@ -168,10 +182,11 @@ def build(case):
     model = Model(tree)
     src_model = Model(tree)          # what references resolve against (remote: frozen file content)
     L = []
-    info = {"after_mod": False, "unit_change": False, "slice": False, "import_con": False}
+    info = {"after_mod": False, "unit_change": False, "slice": False, "import_con": False, "import_of_sliced_host": False}
     pre = "s" if where == "remote" else ""
     modified = set()
     hosts = {}                        # kind -> host path (for inject_mod)
+    all_hosts = []                    # every host created by an injection (for import_host)
     n = itertools.count()
     if where == "remote":
         final = Model.__new__(Model)
@@ -208,6 +223,7 @@ def build(case):
             L.append(f"{hp} {typ} = {ref}" + (f" {unit}" if unit else ""))
             hunit = unit or s["unit"]
             final.add(hp, typ, hunit, list(val) if isinstance(val, list) else val)
+            all_hosts.append((hp, bool(sl)))
             kind = TYPE[key] if sl is None else None
             if kind and "[" not in kind:
                 hosts[key] = hp
@@ -232,6 +248,16 @@ def build(case):
                 info["after_mod"] = True
             if unit and unit != h["unit"]:
                 info["unit_change"] = True
+        elif k == "import_host":
+            if not all_hosts:
+                continue
+            hp, sliced = all_hosts[op[1] % len(all_hosts)]
+            g = f"bag{next(n)}"
+            L.append(f"{g} {{?{hp}}}")
+            hn = final.nodes[hp]
+            final.add(f"{g}.{hp}", hn["type"], hn["unit"], list(hn["value"]) if isinstance(hn["value"], list) else hn["value"])
+            if sliced:
+                info["import_of_sliced_host"] = True
         elif k in ("import_children", "import_single", "import_all"):
             g = f"bag{next(n)}"
             if k == "import_children":
@@ -245,6 +271,8 @@ def build(case):
                 sel = [(p, p) for p in list(resolve.order)]
                 L.append(f"{g}")
                 L.append("  {" + pre + "?*}")
+                if where != "remote" and any(sl for _h, sl in all_hosts):
+                    info["import_of_sliced_host"] = True
             for p, rel in sel:
                 sn = resolve.nodes[p]
                 final.add(f"{g}.{rel}", sn["type"], sn["unit"], list(sn["value"]) if isinstance(sn["value"], list) else sn["value"],
@@ -275,6 +303,22 @@ def build(case):
             info["import_con"] = True
         else:
             probe = None
+    elif probe in ("option_added_to_copy", "option_leak"):
+        if tree["deep_con"] == "options":
+            # a further option on the imported copy widens the copy only
+            L.append("probe {" + pre + "?src.sub.deep}")
+            L.append("  = 4")
+            info["import_con"] = True
+            if probe == "option_added_to_copy":
+                L.append("probe.deep = 4")
+                final.add("probe.deep", "int", None, 4, "options")
+            else:
+                if where == "remote":
+                    L.append("probe2 {" + pre + "?src.sub.deep}")
+                    L.append("probe2.deep = 4")
+                else:
+                    L.append("src.sub.deep = 4")
+                expects_raise = True
     return L, final, expects_raise, info
 
 
@@ -372,6 +416,15 @@ def _check(case, v, tmp):
         after = _snapshot(env0)
         if after != base_before:
             return v.fail("base-changed", f"the base environment changed: {base_before} -> {after} for:\n{text}")
+        if case["probe"] == "option_added_to_copy" and case["tree"]["deep_con"] == "options":
+            try:
+                with DIP(env0, name=f"c17_{next(_uid)}") as p2:
+                    p2.add_string("src.sub.deep = 4")
+                    p2.parse()
+                return v.fail("base-changed", f"the base environment's node src.sub.deep accepts 4 after an option was "
+                                              f"added to an imported copy:\n{text}")
+            except Exception:
+                pass
     v.nt(info["after_mod"] or info["unit_change"] or info["slice"] or info["import_con"])
     v.label(where, *[k for k, x in info.items() if x])
     if case["probe"]:
